@@ -22,7 +22,7 @@ theorem length_bytes32_append (w : Nat) (t : List Nat) : (bytes32 w ++ t).length
 def second (rest : List Nat) : Option Nat := if rest.length ≥ 4 then some (le32 rest 0) else none
 
 theorem decode_bytes32 (c : Bool) (w : Nat) (hw : w < 2 ^ 32) (rest : List Nat) :
-    decode c (bytes32 w ++ rest) = decodeCore lookUp c w (second rest) := by
+    decode c (bytes32 w ++ rest) = decodeCore (lookUpArch c) c w (second rest) := by
   unfold decode decodeWith second
   have h4 : ¬ (bytes32 w ++ rest).length < 4 := by rw [length_bytes32_append]; omega
   have h8 : ((bytes32 w ++ rest).length ≥ 8) = (rest.length ≥ 4) := by
@@ -34,9 +34,9 @@ theorem second_bytes32 (l : Nat) (hl : l < 2 ^ 32) (t : List Nat) : second (byte
   have : (bytes32 l ++ t).length ≥ 4 := by rw [length_bytes32_append]; omega
   simp only [this, if_true, le32_bytes32 l hl]
 
-theorem decodeCore_of {c : Bool} {w : Nat} {f : Format} {row : Row} (w1? : Option Nat)
-    (hm : matchFormat w = some f) (hl : lookUp f.ft (extractBits w f.opLo f.opHi) = some row) :
-    decodeCore lookUp c w w1? = decodeRow c f row w w1? := by
+theorem decodeCore_of {look : Nat → Nat → Option Row} {c : Bool} {w : Nat} {f : Format} {row : Row} (w1? : Option Nat)
+    (hm : matchFormat w = some f) (hl : look f.ft (extractBits w f.opLo f.opHi) = some row) :
+    decodeCore look c w w1? = decodeRow c f row w w1? := by
   unfold decodeCore
   simp only [hm, hl]
 
@@ -87,15 +87,58 @@ theorem lastRow_some (rows : List Row) (ft op : Nat) (r : Row) (h : lastRow rows
 theorem lookUp_some {ft op : Nat} {r : Row} (h : lookUp ft op = some r) :
     r ∈ allRows ∧ r.ft = ft ∧ r.opcode = op := lastRow_some _ _ _ _ h
 
+theorem lookUpArch_some {c : Bool} {ft op : Nat} {r : Row} (h : lookUpArch c ft op = some r) :
+    (r ∈ allRows ∨ r ∈ cdna3Rows) ∧ r.ft = ft ∧ r.opcode = op := by
+  unfold lookUpArch at h
+  cases c with
+  | false =>
+    simp only [Bool.false_eq_true, if_false] at h
+    obtain ⟨a, b⟩ := lookUp_some h
+    exact ⟨Or.inl a, b⟩
+  | true =>
+    simp only [if_true] at h
+    cases hc : lastRow cdna3Rows ft op with
+    | none =>
+      rw [hc] at h
+      obtain ⟨a, b⟩ := lookUp_some h
+      exact ⟨Or.inl a, b⟩
+    | some r' =>
+      rw [hc] at h
+      simp only [Option.some.injEq] at h
+      subst h
+      obtain ⟨a, b⟩ := lastRow_some _ _ _ _ hc
+      exact ⟨Or.inr a, b⟩
+
+/-- on GCN3 (`IsCDNA3` clear) the architecture lookup is the shared table -/
+theorem lookUpArch_false (ft op : Nat) : lookUpArch false ft op = lookUp ft op := by
+  simp [lookUpArch]
+
+/-- a (format, opcode) of the shared table is also answered by the architecture's lookup (possibly by
+    the CDNA3 row for the same key) -/
+theorem lookUpArch_of_lookUp {c : Bool} {ft op : Nat} {row : Row} (h : lookUp ft op = some row) :
+    ∃ row', lookUpArch c ft op = some row' ∧ row'.ft = ft ∧ row'.opcode = op := by
+  cases hx : lookUpArch c ft op with
+  | some r => exact ⟨r, rfl, (lookUpArch_some hx).2⟩
+  | none =>
+    exfalso
+    unfold lookUpArch at hx
+    cases c with
+    | false => simp [h] at hx
+    | true =>
+      simp only [if_true] at hx
+      cases hc : lastRow cdna3Rows ft op with
+      | none => rw [hc] at hx; simp [h] at hx
+      | some r => rw [hc] at hx; simp at hx
+
 /-! ## per-format round trips -/
 
 theorem enc_sop2 (c : Bool) (d : Desc) (row : Row) (f : Format)
     (hft : d.ft = FT_SOP2) (hf : f.ft = FT_SOP2) (hsz : f.size = 4)
-    (hrow : lookUp d.ft d.op = some row) (hop : d.op < 128)
+    (hro : row.opcode = d.op) (hop : d.op < 128)
     (hfo : fieldsOK d = true) (hl : d.lit.isSome = usesLit d) :
     encWord d < 2 ^ 32 ∧ encWord d / 2 ^ 30 = 2 ∧ extractBits (encWord d) 23 29 = d.op ∧
     ∀ w1?, (∀ l, encSecond d = some l → w1? = some l) →
-      decodeRow c f row (encWord d) w1? = .ok (instOf d) := by
+      decodeRow c f row (encWord d) w1? = .ok (instOfRow d row) := by
   have hW : encWord d = 0x80000000 + d.op * 2 ^ 23 + d.sdst * 2 ^ 16 + d.ssrc1 * 2 ^ 8 + d.ssrc0 := by
     simp [encWord, hft, FT_SOP2]
   simp only [fieldsOK, hft, FT_SOP2, BEq.rfl, if_true, Bool.and_eq_true] at hfo
@@ -110,17 +153,14 @@ theorem enc_sop2 (c : Bool) (d : Desc) (row : Row) (f : Format)
   clear hW
   generalize encWord d = w at x0 x1 xd ⊢
   intro w1? hw1
-  obtain ⟨_, hrf, hro⟩ := lookUp_some hrow
   have l0 := getOperand_isLit (by omega) g0
   have l1 := getOperand_isLit (by omega) g1
   have hsec : encSecond d = d.lit := by simp [encSecond, hft, FT_SOP2, FT_SMEM]
   rw [hsec] at hw1
   have hul : usesLit d = (d.ssrc0 == 255 || d.ssrc1 == 255) := by simp [usesLit, hft, FT_SOP2]
   rw [hul] at hl
-  rw [hft] at hrow
-  simp only [FT_SOP2] at hrow
-  unfold decodeRow instOf
-  simp only [hsz, hrow, hsec, dec4, hf, hft, FT_SOP2, decodeSOP2, x0, x1, xd, g0, g1, gd, l0, l1, e0, e1, ed, hro]
+  unfold decodeRow instOfRow
+  simp only [hsz, hsec, dec4, hf, hft, FT_SOP2, decodeSOP2, x0, x1, xd, g0, g1, gd, l0, l1, e0, e1, ed, hro]
   cases hlit : d.lit with
   | none =>
     rw [hlit] at hl
@@ -148,11 +188,11 @@ theorem extractBits_8_12 (x : Nat) : extractBits x 8 12 = x / 256 % 32 := by sim
 
 theorem enc_sopk (c : Bool) (d : Desc) (row : Row) (f : Format)
     (hft : d.ft = FT_SOPK) (hf : f.ft = FT_SOPK) (hsz : f.size = 4)
-    (hrow : lookUp d.ft d.op = some row) (hop : d.op < 32)
+    (hro : row.opcode = d.op) (hop : d.op < 32)
     (hfo : fieldsOK d = true) (hl : d.lit.isSome = usesLit d) :
     encWord d < 2 ^ 32 ∧ encWord d / 2 ^ 28 = 11 ∧ extractBits (encWord d) 23 27 = d.op ∧
     ∀ w1?, (∀ l, encSecond d = some l → w1? = some l) →
-      decodeRow c f row (encWord d) w1? = .ok (instOf d) := by
+      decodeRow c f row (encWord d) w1? = .ok (instOfRow d row) := by
   have hW : encWord d = 0xB0000000 + d.op * 2 ^ 23 + d.sdst * 2 ^ 16 + d.simm16 := by
     simp [encWord, hft, FT_SOP2, FT_SOPK, FT_SOP1, FT_SOPC, FT_SOPP, FT_SMEM, FT_VOP2, FT_VOP1, FT_VOPC, FT_VOP3a, FT_VOP3b, FT_FLAT, FT_DS]
   simp [fieldsOK, hft, FT_SOP2, FT_SOPK, FT_SOP1, FT_SOPC, FT_SOPP, FT_SMEM, FT_VOP2, FT_VOP1, FT_VOPC, FT_VOP3a, FT_VOP3b, FT_FLAT, FT_DS] at hfo
@@ -164,23 +204,20 @@ theorem enc_sopk (c : Bool) (d : Desc) (row : Row) (f : Format)
   clear hW
   generalize encWord d = w at xi xd ⊢
   intro w1? hw1
-  obtain ⟨_, hrf, hro⟩ := lookUp_some hrow
   have hsec : encSecond d = d.lit := by simp [encSecond, hft, FT_SOP2, FT_SOPK, FT_SOP1, FT_SOPC, FT_SOPP, FT_SMEM, FT_VOP2, FT_VOP1, FT_VOPC, FT_VOP3a, FT_VOP3b, FT_FLAT, FT_DS]
   have hul : usesLit d = false := by simp [usesLit, hft, FT_SOP2, FT_SOPK, FT_SOP1, FT_SOPC, FT_SOPP, FT_SMEM, FT_VOP2, FT_VOP1, FT_VOPC, FT_VOP3a, FT_VOP3b, FT_FLAT, FT_DS]
   rw [hul] at hl
   have hlit : d.lit = none := by cases h : d.lit <;> simp [h] at hl ⊢
-  rw [hft] at hrow
-  simp only [FT_SOPK] at hrow
-  unfold decodeRow instOf
-  simp [hsz, hrow, hsec, hlit, dec4, hf, hft, FT_SOP2, FT_SOPK, FT_SOP1, FT_SOPC, FT_SOPP, FT_SMEM, FT_VOP2, FT_VOP1, FT_VOPC, FT_VOP3a, FT_VOP3b, FT_FLAT, FT_DS, decodeSOPK, xi, xd, gd, ed, hro]
+  unfold decodeRow instOfRow
+  simp [hsz, hsec, hlit, dec4, hf, hft, FT_SOP2, FT_SOPK, FT_SOP1, FT_SOPC, FT_SOPP, FT_SMEM, FT_VOP2, FT_VOP1, FT_VOPC, FT_VOP3a, FT_VOP3b, FT_FLAT, FT_DS, decodeSOPK, xi, xd, gd, ed, hro]
 
 theorem enc_sop1 (c : Bool) (d : Desc) (row : Row) (f : Format)
     (hft : d.ft = FT_SOP1) (hf : f.ft = FT_SOP1) (hsz : f.size = 4)
-    (hrow : lookUp d.ft d.op = some row) (hop : d.op < 256)
+    (hro : row.opcode = d.op) (hop : d.op < 256)
     (hfo : fieldsOK d = true) (hl : d.lit.isSome = usesLit d) :
     encWord d < 2 ^ 32 ∧ encWord d / 2 ^ 23 = 381 ∧ extractBits (encWord d) 8 15 = d.op ∧
     ∀ w1?, (∀ l, encSecond d = some l → w1? = some l) →
-      decodeRow c f row (encWord d) w1? = .ok (instOf d) := by
+      decodeRow c f row (encWord d) w1? = .ok (instOfRow d row) := by
   have hW : encWord d = 0xBE800000 + d.sdst * 2 ^ 16 + d.op * 2 ^ 8 + d.ssrc0 := by
     simp [encWord, hft, FT_SOP2, FT_SOPK, FT_SOP1, FT_SOPC, FT_SOPP, FT_SMEM, FT_VOP2, FT_VOP1, FT_VOPC, FT_VOP3a, FT_VOP3b, FT_FLAT, FT_DS]
   simp [fieldsOK, hft, FT_SOP2, FT_SOPK, FT_SOP1, FT_SOPC, FT_SOPP, FT_SMEM, FT_VOP2, FT_VOP1, FT_VOPC, FT_VOP3a, FT_VOP3b, FT_FLAT, FT_DS] at hfo
@@ -193,16 +230,13 @@ theorem enc_sop1 (c : Bool) (d : Desc) (row : Row) (f : Format)
   clear hW
   generalize encWord d = w at x0 xd ⊢
   intro w1? hw1
-  obtain ⟨_, hrf, hro⟩ := lookUp_some hrow
   have l0 := getOperand_isLit (by omega) g0
   have hsec : encSecond d = d.lit := by simp [encSecond, hft, FT_SOP2, FT_SOPK, FT_SOP1, FT_SOPC, FT_SOPP, FT_SMEM, FT_VOP2, FT_VOP1, FT_VOPC, FT_VOP3a, FT_VOP3b, FT_FLAT, FT_DS]
   rw [hsec] at hw1
   have hul : usesLit d = (d.ssrc0 == 255) := by simp [usesLit, hft, FT_SOP2, FT_SOPK, FT_SOP1, FT_SOPC, FT_SOPP, FT_SMEM, FT_VOP2, FT_VOP1, FT_VOPC, FT_VOP3a, FT_VOP3b, FT_FLAT, FT_DS]
   rw [hul] at hl
-  rw [hft] at hrow
-  simp only [FT_SOP1] at hrow
-  unfold decodeRow instOf
-  simp only [hsz, hrow, hsec, dec4, hf, hft, FT_SOP2, FT_SOPK, FT_SOP1, FT_SOPC, FT_SOPP, FT_SMEM, FT_VOP2, FT_VOP1, FT_VOPC, FT_VOP3a, FT_VOP3b, FT_FLAT, FT_DS, decodeSOP1, x0, xd, g0, gd, with64_isLit, l0, e0, ed, hro]
+  unfold decodeRow instOfRow
+  simp only [hsz, hsec, dec4, hf, hft, FT_SOP2, FT_SOPK, FT_SOP1, FT_SOPC, FT_SOPP, FT_SMEM, FT_VOP2, FT_VOP1, FT_VOPC, FT_VOP3a, FT_VOP3b, FT_FLAT, FT_DS, decodeSOP1, x0, xd, g0, gd, with64_isLit, l0, e0, ed, hro]
   cases hlit : d.lit with
   | none =>
     rw [hlit] at hl
@@ -213,11 +247,11 @@ theorem enc_sop1 (c : Bool) (d : Desc) (row : Row) (f : Format)
 
 theorem enc_sopc (c : Bool) (d : Desc) (row : Row) (f : Format)
     (hft : d.ft = FT_SOPC) (hf : f.ft = FT_SOPC) (hsz : f.size = 4)
-    (hrow : lookUp d.ft d.op = some row) (hop : d.op < 128)
+    (hro : row.opcode = d.op) (hop : d.op < 128)
     (hfo : fieldsOK d = true) (hl : d.lit.isSome = usesLit d) :
     encWord d < 2 ^ 32 ∧ encWord d / 2 ^ 23 = 382 ∧ extractBits (encWord d) 16 22 = d.op ∧
     ∀ w1?, (∀ l, encSecond d = some l → w1? = some l) →
-      decodeRow c f row (encWord d) w1? = .ok (instOf d) := by
+      decodeRow c f row (encWord d) w1? = .ok (instOfRow d row) := by
   have hW : encWord d = 0xBF000000 + d.op * 2 ^ 16 + d.ssrc1 * 2 ^ 8 + d.ssrc0 := by
     simp [encWord, hft, FT_SOP2, FT_SOPK, FT_SOP1, FT_SOPC, FT_SOPP, FT_SMEM, FT_VOP2, FT_VOP1, FT_VOPC, FT_VOP3a, FT_VOP3b, FT_FLAT, FT_DS]
   simp [fieldsOK, hft, FT_SOP2, FT_SOPK, FT_SOP1, FT_SOPC, FT_SOPP, FT_SMEM, FT_VOP2, FT_VOP1, FT_VOPC, FT_VOP3a, FT_VOP3b, FT_FLAT, FT_DS] at hfo
@@ -230,17 +264,14 @@ theorem enc_sopc (c : Bool) (d : Desc) (row : Row) (f : Format)
   clear hW
   generalize encWord d = w at x0 x1 ⊢
   intro w1? hw1
-  obtain ⟨_, hrf, hro⟩ := lookUp_some hrow
   have l0 := getOperand_isLit (by omega) g0
   have l1 := getOperand_isLit (by omega) g1
   have hsec : encSecond d = d.lit := by simp [encSecond, hft, FT_SOP2, FT_SOPK, FT_SOP1, FT_SOPC, FT_SOPP, FT_SMEM, FT_VOP2, FT_VOP1, FT_VOPC, FT_VOP3a, FT_VOP3b, FT_FLAT, FT_DS]
   rw [hsec] at hw1
   have hul : usesLit d = (d.ssrc0 == 255 || d.ssrc1 == 255) := by simp [usesLit, hft, FT_SOP2, FT_SOPK, FT_SOP1, FT_SOPC, FT_SOPP, FT_SMEM, FT_VOP2, FT_VOP1, FT_VOPC, FT_VOP3a, FT_VOP3b, FT_FLAT, FT_DS]
   rw [hul] at hl
-  rw [hft] at hrow
-  simp only [FT_SOPC] at hrow
-  unfold decodeRow instOf
-  simp only [hsz, hrow, hsec, dec4, hf, hft, FT_SOP2, FT_SOPK, FT_SOP1, FT_SOPC, FT_SOPP, FT_SMEM, FT_VOP2, FT_VOP1, FT_VOPC, FT_VOP3a, FT_VOP3b, FT_FLAT, FT_DS, decodeSOPC, x0, x1, g0, g1, l0, l1, e0, e1, hro]
+  unfold decodeRow instOfRow
+  simp only [hsz, hsec, dec4, hf, hft, FT_SOP2, FT_SOPK, FT_SOP1, FT_SOPC, FT_SOPP, FT_SMEM, FT_VOP2, FT_VOP1, FT_VOPC, FT_VOP3a, FT_VOP3b, FT_FLAT, FT_DS, decodeSOPC, x0, x1, g0, g1, l0, l1, e0, e1, hro]
   cases hlit : d.lit with
   | none =>
     rw [hlit] at hl
@@ -251,11 +282,11 @@ theorem enc_sopc (c : Bool) (d : Desc) (row : Row) (f : Format)
 
 theorem enc_sopp (c : Bool) (d : Desc) (row : Row) (f : Format)
     (hft : d.ft = FT_SOPP) (hf : f.ft = FT_SOPP) (hsz : f.size = 4)
-    (hrow : lookUp d.ft d.op = some row) (hop : d.op < 128)
+    (hro : row.opcode = d.op) (hop : d.op < 128)
     (hfo : fieldsOK d = true) (hl : d.lit.isSome = usesLit d) :
     encWord d < 2 ^ 32 ∧ encWord d / 2 ^ 23 = 383 ∧ extractBits (encWord d) 16 22 = d.op ∧
     ∀ w1?, (∀ l, encSecond d = some l → w1? = some l) →
-      decodeRow c f row (encWord d) w1? = .ok (instOf d) := by
+      decodeRow c f row (encWord d) w1? = .ok (instOfRow d row) := by
   have hW : encWord d = 0xBF800000 + d.op * 2 ^ 16 + d.simm16 := by
     simp [encWord, hft, FT_SOP2, FT_SOPK, FT_SOP1, FT_SOPC, FT_SOPP, FT_SMEM, FT_VOP2, FT_VOP1, FT_VOPC, FT_VOP3a, FT_VOP3b, FT_FLAT, FT_DS]
   simp [fieldsOK, hft, FT_SOP2, FT_SOPK, FT_SOP1, FT_SOPC, FT_SOPP, FT_SMEM, FT_VOP2, FT_VOP1, FT_VOPC, FT_VOP3a, FT_VOP3b, FT_FLAT, FT_DS] at hfo
@@ -264,25 +295,22 @@ theorem enc_sopp (c : Bool) (d : Desc) (row : Row) (f : Format)
   clear hW
   generalize encWord d = w at xi ⊢
   intro w1? hw1
-  obtain ⟨_, hrf, hro⟩ := lookUp_some hrow
   have hsec : encSecond d = d.lit := by simp [encSecond, hft, FT_SOP2, FT_SOPK, FT_SOP1, FT_SOPC, FT_SOPP, FT_SMEM, FT_VOP2, FT_VOP1, FT_VOPC, FT_VOP3a, FT_VOP3b, FT_FLAT, FT_DS]
   have hul : usesLit d = false := by simp [usesLit, hft, FT_SOP2, FT_SOPK, FT_SOP1, FT_SOPC, FT_SOPP, FT_SMEM, FT_VOP2, FT_VOP1, FT_VOPC, FT_VOP3a, FT_VOP3b, FT_FLAT, FT_DS]
   rw [hul] at hl
   have hlit : d.lit = none := by cases h : d.lit <;> simp [h] at hl ⊢
-  rw [hft] at hrow
-  simp only [FT_SOPP] at hrow
-  unfold decodeRow instOf
-  simp only [hsz, hrow, hsec, hlit, dec4, hf, hft, FT_SOP2, FT_SOPK, FT_SOP1, FT_SOPC, FT_SOPP, FT_SMEM, FT_VOP2, FT_VOP1, FT_VOPC, FT_VOP3a, FT_VOP3b, FT_FLAT, FT_DS, decodeSOPP, xi, hro, extractBits_0_3, extractBits_8_12]
+  unfold decodeRow instOfRow
+  simp only [hsz, hsec, hlit, dec4, hf, hft, FT_SOP2, FT_SOPK, FT_SOP1, FT_SOPC, FT_SOPP, FT_SMEM, FT_VOP2, FT_VOP1, FT_VOPC, FT_VOP3a, FT_VOP3b, FT_FLAT, FT_DS, decodeSOPP, xi, hro, extractBits_0_3, extractBits_8_12]
   by_cases h12 : d.op = 12 <;> simp [h12]
 
 
 theorem enc_vopc (c : Bool) (d : Desc) (row : Row) (f : Format)
     (hft : d.ft = FT_VOPC) (hf : f.ft = FT_VOPC) (hsz : f.size = 4)
-    (hrow : lookUp d.ft d.op = some row) (hop : d.op < 256)
+    (hro : row.opcode = d.op) (hop : d.op < 256)
     (hfo : fieldsOK d = true) (hl : d.lit.isSome = usesLit d) :
     encWord d < 2 ^ 32 ∧ encWord d / 2 ^ 25 = 62 ∧ extractBits (encWord d) 17 24 = d.op ∧
     ∀ w1?, (∀ l, encSecond d = some l → w1? = some l) →
-      decodeRow c f row (encWord d) w1? = .ok (instOf d) := by
+      decodeRow c f row (encWord d) w1? = .ok (instOfRow d row) := by
   have hW : encWord d = 0x7C000000 + d.op * 2 ^ 17 + d.vsrc1 * 2 ^ 9 + d.src0 := by
     simp [encWord, hft, FT_SOP2, FT_SOPK, FT_SOP1, FT_SOPC, FT_SOPP, FT_SMEM, FT_VOP2, FT_VOP1, FT_VOPC, FT_VOP3a, FT_VOP3b, FT_FLAT, FT_DS]
   simp [fieldsOK, hft, FT_SOP2, FT_SOPK, FT_SOP1, FT_SOPC, FT_SOPP, FT_SMEM, FT_VOP2, FT_VOP1, FT_VOPC, FT_VOP3a, FT_VOP3b, FT_FLAT, FT_DS] at hfo
@@ -294,16 +322,13 @@ theorem enc_vopc (c : Bool) (d : Desc) (row : Row) (f : Format)
   clear hW
   generalize encWord d = w at x0 x1 ⊢
   intro w1? hw1
-  obtain ⟨_, hrf, hro⟩ := lookUp_some hrow
   have l0 := getOperand_isLit (by omega) g0
   have hsec : encSecond d = d.lit := by simp [encSecond, hft, FT_SOP2, FT_SOPK, FT_SOP1, FT_SOPC, FT_SOPP, FT_SMEM, FT_VOP2, FT_VOP1, FT_VOPC, FT_VOP3a, FT_VOP3b, FT_FLAT, FT_DS]
   rw [hsec] at hw1
   have hul : usesLit d = (d.src0 == 255) := by simp [usesLit, hft, FT_SOP2, FT_SOPK, FT_SOP1, FT_SOPC, FT_SOPP, FT_SMEM, FT_VOP2, FT_VOP1, FT_VOPC, FT_VOP3a, FT_VOP3b, FT_FLAT, FT_DS]
   rw [hul] at hl
-  rw [hft] at hrow
-  simp only [FT_VOPC] at hrow
-  unfold decodeRow instOf
-  simp only [hsz, hrow, hsec, dec4, hf, hft, FT_SOP2, FT_SOPK, FT_SOP1, FT_SOPC, FT_SOPP, FT_SMEM, FT_VOP2, FT_VOP1, FT_VOPC, FT_VOP3a, FT_VOP3b, FT_FLAT, FT_DS, decodeVOPC, x0, x1, g0, l0, e0, hro]
+  unfold decodeRow instOfRow
+  simp only [hsz, hsec, dec4, hf, hft, FT_SOP2, FT_SOPK, FT_SOP1, FT_SOPC, FT_SOPP, FT_SMEM, FT_VOP2, FT_VOP1, FT_VOPC, FT_VOP3a, FT_VOP3b, FT_FLAT, FT_DS, decodeVOPC, x0, x1, g0, l0, e0, hro]
   cases hlit : d.lit with
   | none =>
     rw [hlit] at hl
@@ -314,11 +339,11 @@ theorem enc_vopc (c : Bool) (d : Desc) (row : Row) (f : Format)
 
 theorem enc_vop1 (c : Bool) (d : Desc) (row : Row) (f : Format)
     (hft : d.ft = FT_VOP1) (hf : f.ft = FT_VOP1) (hsz : f.size = 4)
-    (hrow : lookUp d.ft d.op = some row) (hop : d.op < 256)
+    (hro : row.opcode = d.op) (hop : d.op < 256)
     (hfo : fieldsOK d = true) (hl : d.lit.isSome = usesLit d) :
     encWord d < 2 ^ 32 ∧ encWord d / 2 ^ 25 = 63 ∧ extractBits (encWord d) 9 16 = d.op ∧
     ∀ w1?, (∀ l, encSecond d = some l → w1? = some l) →
-      decodeRow c f row (encWord d) w1? = .ok (instOf d) := by
+      decodeRow c f row (encWord d) w1? = .ok (instOfRow d row) := by
   have hW : encWord d = 0x7E000000 + d.vdst * 2 ^ 17 + d.op * 2 ^ 9 + d.src0 := by
     simp [encWord, hft, FT_SOP2, FT_SOPK, FT_SOP1, FT_SOPC, FT_SOPP, FT_SMEM, FT_VOP2, FT_VOP1, FT_VOPC, FT_VOP3a, FT_VOP3b, FT_FLAT, FT_DS]
   simp [fieldsOK, hft, FT_SOP2, FT_SOPK, FT_SOP1, FT_SOPC, FT_SOPP, FT_SMEM, FT_VOP2, FT_VOP1, FT_VOPC, FT_VOP3a, FT_VOP3b, FT_FLAT, FT_DS] at hfo
@@ -330,14 +355,11 @@ theorem enc_vop1 (c : Bool) (d : Desc) (row : Row) (f : Format)
   clear hW
   generalize encWord d = w at x0 xd ⊢
   intro w1? hw1
-  obtain ⟨_, hrf, hro⟩ := lookUp_some hrow
   have l0 := getOperand_isLit (by omega) g0
   have hsec : encSecond d = d.lit := by simp [encSecond, hft, FT_SOP2, FT_SOPK, FT_SOP1, FT_SOPC, FT_SOPP, FT_SMEM, FT_VOP2, FT_VOP1, FT_VOPC, FT_VOP3a, FT_VOP3b, FT_FLAT, FT_DS]
   rw [hsec] at hw1
   have hul : usesLit d = (d.src0 == 255) := by simp [usesLit, hft, FT_SOP2, FT_SOPK, FT_SOP1, FT_SOPC, FT_SOPP, FT_SMEM, FT_VOP2, FT_VOP1, FT_VOPC, FT_VOP3a, FT_VOP3b, FT_FLAT, FT_DS]
   rw [hul] at hl
-  rw [hft] at hrow
-  simp only [FT_VOP1] at hrow
   -- the destination operand
   have hdst : ∃ dd, (if d.op == 2 then getOperand d.vdst else getOperand (d.vdst + 256)) = some dd ∧
       (if d.op == 2 then opndOf d.vdst else vreg (d.vdst + 256) d.vdst 0) = dd := by
@@ -350,8 +372,8 @@ theorem enc_vop1 (c : Bool) (d : Desc) (row : Row) (f : Format)
     · have hb : (d.op == 2) = false := by simpa using h2
       exact ⟨vreg (d.vdst + 256) d.vdst 0, by rw [hb, if_neg (by simp)]; exact getOperand_vgpr bd, by rw [hb, if_neg (by simp)]⟩
   obtain ⟨dd, gdd, edd⟩ := hdst
-  unfold decodeRow instOf
-  simp only [hsz, hrow, hsec, dec4, hf, hft, FT_SOP2, FT_SOPK, FT_SOP1, FT_SOPC, FT_SOPP, FT_SMEM, FT_VOP2, FT_VOP1, FT_VOPC, FT_VOP3a, FT_VOP3b, FT_FLAT, FT_DS, decodeVOP1, x0, xd, g0, gdd, edd, with64_isLit, l0, e0, hro]
+  unfold decodeRow instOfRow
+  simp only [hsz, hsec, dec4, hf, hft, FT_SOP2, FT_SOPK, FT_SOP1, FT_SOPC, FT_SOPP, FT_SMEM, FT_VOP2, FT_VOP1, FT_VOPC, FT_VOP3a, FT_VOP3b, FT_FLAT, FT_DS, decodeVOP1, x0, xd, g0, gdd, edd, with64_isLit, l0, e0, hro]
   cases hlit : d.lit with
   | none =>
     rw [hlit] at hl
@@ -362,11 +384,11 @@ theorem enc_vop1 (c : Bool) (d : Desc) (row : Row) (f : Format)
 
 theorem enc_vop2 (c : Bool) (d : Desc) (row : Row) (f : Format)
     (hft : d.ft = FT_VOP2) (hf : f.ft = FT_VOP2) (hsz : f.size = 4)
-    (hrow : lookUp d.ft d.op = some row) (hop : d.op < 64)
+    (hro : row.opcode = d.op) (hop : d.op < 64)
     (hfo : fieldsOK d = true) (hl : d.lit.isSome = usesLit d) :
     encWord d < 2 ^ 32 ∧ encWord d / 2 ^ 31 = 0 ∧ extractBits (encWord d) 25 30 = d.op ∧
     ∀ w1?, (∀ l, encSecond d = some l → w1? = some l) →
-      decodeRow c f row (encWord d) w1? = .ok (instOf d) := by
+      decodeRow c f row (encWord d) w1? = .ok (instOfRow d row) := by
   have hW : encWord d = d.op * 2 ^ 25 + d.vdst * 2 ^ 17 + d.vsrc1 * 2 ^ 9 + d.src0 := by
     simp [encWord, hft, FT_SOP2, FT_SOPK, FT_SOP1, FT_SOPC, FT_SOPP, FT_SMEM, FT_VOP2, FT_VOP1, FT_VOPC, FT_VOP3a, FT_VOP3b, FT_FLAT, FT_DS]
   simp [fieldsOK, hft, FT_SOP2, FT_SOPK, FT_SOP1, FT_SOPC, FT_SOPP, FT_SMEM, FT_VOP2, FT_VOP1, FT_VOPC, FT_VOP3a, FT_VOP3b, FT_FLAT, FT_DS] at hfo
@@ -379,7 +401,6 @@ theorem enc_vop2 (c : Bool) (d : Desc) (row : Row) (f : Format)
   clear hW
   generalize encWord d = w at x0 x1 xd ⊢
   intro w1? hw1
-  obtain ⟨_, hrf, hro⟩ := lookUp_some hrow
   have l0 := getOperand_isLit (by omega) g0
   have n249 : (d.src0 == 249) = false := by
     cases h : d.src0 == 249 with
@@ -389,10 +410,8 @@ theorem enc_vop2 (c : Bool) (d : Desc) (row : Row) (f : Format)
   rw [hsec] at hw1
   have hul : usesLit d = (d.src0 == 255 || isKOpcode d.op) := by simp [usesLit, hft, FT_SOP2, FT_SOPK, FT_SOP1, FT_SOPC, FT_SOPP, FT_SMEM, FT_VOP2, FT_VOP1, FT_VOPC, FT_VOP3a, FT_VOP3b, FT_FLAT, FT_DS]
   rw [hul] at hl
-  rw [hft] at hrow
-  simp only [FT_VOP2] at hrow
-  unfold decodeRow instOf
-  simp only [hsz, hrow, hsec, dec4, hf, hft, FT_SOP2, FT_SOPK, FT_SOP1, FT_SOPC, FT_SOPP, FT_SMEM, FT_VOP2, FT_VOP1, FT_VOPC, FT_VOP3a, FT_VOP3b, FT_FLAT, FT_DS, decodeVOP2, x0, x1, xd, n249, g0, l0, e0, hro]
+  unfold decodeRow instOfRow
+  simp only [hsz, hsec, dec4, hf, hft, FT_SOP2, FT_SOPK, FT_SOP1, FT_SOPC, FT_SOPP, FT_SMEM, FT_VOP2, FT_VOP1, FT_VOPC, FT_VOP3a, FT_VOP3b, FT_FLAT, FT_DS, decodeVOP2, x0, x1, xd, n249, g0, l0, e0, hro]
   cases hlit : d.lit with
   | none =>
     rw [hlit] at hl
@@ -411,11 +430,11 @@ theorem enc_vop2 (c : Bool) (d : Desc) (row : Row) (f : Format)
 
 theorem enc_smem (c : Bool) (d : Desc) (row : Row) (f : Format)
     (hft : d.ft = FT_SMEM) (hf : f.ft = FT_SMEM) (hsz : f.size = 8)
-    (hrow : lookUp d.ft d.op = some row) (hop : d.op < 256)
+    (hro : row.opcode = d.op) (hop : d.op < 256)
     (hfo : fieldsOK d = true) :
     encWord d < 2 ^ 32 ∧ encWord d / 2 ^ 26 = 48 ∧ extractBits (encWord d) 18 25 = d.op ∧
     ∀ w1?, (∀ l, encSecond d = some l → w1? = some l) →
-      decodeRow c f row (encWord d) w1? = .ok (instOf d) := by
+      decodeRow c f row (encWord d) w1? = .ok (instOfRow d row) := by
   have hW : encWord d = 0xC0000000 + d.op * 2 ^ 18 + d.imm * 2 ^ 17 + d.glc * 2 ^ 16 + d.sdata * 2 ^ 6 + d.sbase := by
     simp [encWord, hft, FT_SOP2, FT_SOPK, FT_SOP1, FT_SOPC, FT_SOPP, FT_SMEM, FT_VOP2, FT_VOP1, FT_VOPC, FT_VOP3a, FT_VOP3b, FT_FLAT, FT_DS]
   simp [fieldsOK, hft, FT_SOP2, FT_SOPK, FT_SOP1, FT_SOPC, FT_SOPP, FT_SMEM, FT_VOP2, FT_VOP1, FT_VOPC, FT_VOP3a, FT_VOP3b, FT_FLAT, FT_DS] at hfo
@@ -427,17 +446,21 @@ theorem enc_smem (c : Bool) (d : Desc) (row : Row) (f : Format)
   have xg : extractBits (encWord d) 16 16 = d.glc := by rw [hW]; unfold extractBits; omega
   have xi : extractBits (encWord d) 17 17 = d.imm := by rw [hW]; unfold extractBits; omega
   have xo : extractBits d.offset 0 19 = d.offset := by unfold extractBits; omega
+  have xs : smemImm c d.offset = (d.offset : Int) := by
+    have x20 : extractBits d.offset 0 20 = d.offset := by unfold extractBits; omega
+    unfold smemImm
+    cases c
+    · simp [xo]
+    · have hlt : ¬ (d.offset ≥ 2 ^ 20) := by omega
+      simp [x20, hlt]
   refine ⟨by rw [hW]; omega, by rw [hW]; omega, by rw [hW]; unfold extractBits; omega, ?_⟩
   clear hW
   generalize encWord d = w at xb xdt xg xi ⊢
   intro w1? hw1
-  obtain ⟨_, hrf, hro⟩ := lookUp_some hrow
   have hsec : encSecond d = some d.offset := by simp [encSecond, hft, FT_SOP2, FT_SOPK, FT_SOP1, FT_SOPC, FT_SOPP, FT_SMEM, FT_VOP2, FT_VOP1, FT_VOPC, FT_VOP3a, FT_VOP3b, FT_FLAT, FT_DS]
   rw [hw1 _ hsec]
-  rw [hft] at hrow
-  simp only [FT_SMEM] at hrow
-  unfold decodeRow instOf
-  simp only [hsz, hrow, hsec, dec8, hf, hft, FT_SOP2, FT_SOPK, FT_SOP1, FT_SOPC, FT_SOPP, FT_SMEM, FT_VOP2, FT_VOP1, FT_VOPC, FT_VOP3a, FT_VOP3b, FT_FLAT, FT_DS, decodeSMEM, xb, xdt, xg, xi, xo, gdt, edt, hro]
+  unfold decodeRow instOfRow
+  simp only [hsz, hsec, dec8, hf, hft, FT_SOP2, FT_SOPK, FT_SOP1, FT_SOPC, FT_SOPP, FT_SMEM, FT_VOP2, FT_VOP1, FT_VOPC, FT_VOP3a, FT_VOP3b, FT_FLAT, FT_DS, decodeSMEM, xb, xdt, xg, xi, xo, xs, gdt, edt, hro]
   simp [Outcome.setSize]
 
 
@@ -492,15 +515,15 @@ theorem encSecond_lt {d : Desc} (hfo : fieldsOK d = true)
     encoding and the row's opcode is matched to (format, row), the encoded dword is such a word,
     and `decodeRow` on it gives the expected instruction, then the whole byte string
     `encode d ++ t` decodes to it. -/
-theorem roundtrip_of (c : Bool) (d : Desc) (row : Row) (f : Format) (hfm : f ∈ formats)
+theorem roundtrip_of (c : Bool) (d : Desc) (row : Row) (f : Format) (hfm : f ∈ formats) (x : Inst)
     (hall : ∀ w, w < 2 ^ 32 → (w ^^^ f.encoding) &&& f.mask = 0 → extractBits w f.opLo f.opHi = row.opcode →
-        matchFormat w = some f ∧ lookUp f.ft (extractBits w f.opLo f.opHi) = some row)
+        matchFormat w = some f ∧ lookUpArch c f.ft (extractBits w f.opLo f.opHi) = some row)
     (hsec : ∀ l, encSecond d = some l → l < 2 ^ 32)
     (h : encWord d < 2 ^ 32 ∧ encWord d / 2 ^ shiftOf f = f.encoding / 2 ^ shiftOf f ∧
       extractBits (encWord d) f.opLo f.opHi = row.opcode ∧
       ∀ w1?, (∀ l, encSecond d = some l → w1? = some l) →
-        decodeRow c f row (encWord d) w1? = .ok (instOf d)) (t : List Nat) :
-    decode c (encode d ++ t) = .ok (instOf d) := by
+        decodeRow c f row (encWord d) w1? = .ok x) (t : List Nat) :
+    decode c (encode d ++ t) = .ok x := by
   obtain ⟨hlt, hdiv, hop, hdec⟩ := h
   have hhit : (encWord d ^^^ f.encoding) &&& f.mask = 0 := by
     have := hit_eq_div hfm hlt
